@@ -251,6 +251,15 @@ var c07Exprs = []struct{ what, text, msg string }{
 	{"argument-not-assignable", "${{ hashFiles('a', 'b', @github.event) }}", "3rd argument of function call is not assignable"},
 	{"argument-not-assignable", "${{ contains(github.sha, 'x') && endsWith('a', @github.event) }}", "2nd argument of function call is not assignable"},
 	{"comparison-of-unlike-types", "${{ github.sha == 'a' && @1 < null }}", "cannot be compared to"},
+	{"comparison-of-unlike-types", "${{ @!github.event.number < 1 }}", "cannot be compared to"},
+	{"comparison-of-unlike-types", "${{ @!!github.event.number < 1 }}", "cannot be compared to"},
+	{"comparison-of-unlike-types", "${{ github.sha == 'a' || @! !github.event.number <= 1 }}", "cannot be compared to"},
+	{"comparison-of-unlike-types", "${{ @!!!github.sha > 1 }}", "cannot be compared to"},
+	{"comparison-of-unlike-types", "${{ @!! contains('a', 'b') < 1 && true }}", "cannot be compared to"},
+	{"comparison-of-unlike-types", "${{ @contains('a', 'b') >= 1 }}", "cannot be compared to"},
+	{"comparison-of-unlike-types", "${{ true && @github.event.number < !!github.sha }}", "cannot be compared to"},
+	{"undefined-property", "${{ !!@github.zznosuch }}", "property \"zznosuch\" is not defined"},
+	{"undefined-variable", "${{ ! ! !@zzzctx }}", "undefined variable \"zzzctx\""},
 	{"undefined-property", "${{ github.sha || @github.zznosuch }}", "property \"zznosuch\" is not defined"},
 	{"object-evaluated-in-template", "@${{ fromJSON('{}') }}", "object, array, and null values should not be evaluated in template"},
 	{"object-evaluated-in-template", "${{ 'x' }} and @${{ fromJSON('[1]') }}", "object, array, and null values should not be evaluated in template"},
